@@ -90,7 +90,19 @@ pub fn c01(o: &Oracle, thorough: bool, seed: u64, rep: &Report) {
         } else {
             let p = &perms[(mix(seed, ctr) % 120) as usize];
             check_five(o, rep, permuted(w, p), exp, true);
-            rep.eval(2 * 6);
+            // every slot order through the trait ranking and the validated ranking (the other entry
+            // points are covered on two orders here and on all orders in the thorough tier)
+            for p in perms.iter().skip(1) {
+                let pw = permuted(w, p);
+                let got = guarded(|| {
+                    let f = Five::from(pw);
+                    (f.hand_rank_value(), f.hand_rank_value_validated())
+                });
+                if got != Ok((exp, exp)) {
+                    check_five(o, rep, pw, exp, true);
+                }
+            }
+            rep.eval(2 * 6 + 119 * 2);
         }
         if ctr & 0xFFFF_FFFF == 7 && (ctr >> 32) % 300 == 0 {
             rep.sample(json!({"words": hilo_arr(&w), "expected_ordinal": exp, "class": o.classes[exp as usize - 1].class}));
@@ -99,7 +111,7 @@ pub fn c01(o: &Oracle, thorough: bool, seed: u64, rep: &Report) {
     let n = hands.load(Ordering::Relaxed);
     rep.distinct(n);
     rep.space("five-card subsets of the deck", n == choose(52, 5), n);
-    rep.space("slot orders per hand", thorough, if thorough { 120 } else { 2 });
+    rep.space("slot orders per hand: all 120 (thorough: through all six entry points; quick: through trait and validated ranking, all six on two orders)", true, 120);
 
     // quick: additionally all 120 orders for one seeded hand per class
     if !thorough {
@@ -221,6 +233,10 @@ pub fn c02_c03(o: &Oracle, thorough: bool, seed: u64, rep: &Report, witness_prop
             };
             if n == 6 || thorough {
                 orders.push(canon.clone());
+                // ... and the same cards in ascending card order (the reverse of deck order)
+                orders.push(canon.iter().rev().cloned().collect());
+            } else if pick % 4 == 0 {
+                orders.push(canon.iter().rev().cloned().collect());
             }
             if n == 7 || thorough || pick % 8 == 0 {
                 orders.push(seeded.clone());
@@ -323,6 +339,10 @@ pub fn c09(o: &Oracle, thorough: bool, seed: u64, rep: &Report) {
     par_subsets(6, |idx, ctr| {
         let w = o.words(idx);
         let v = guarded(|| rank_value(&Hand::from_words(&w))).unwrap_or(u16::MAX);
+        let rev: Vec<u32> = w.iter().rev().cloned().collect();
+        if guarded(|| rank_value(&Hand::from_words(&rev))).unwrap_or(u16::MAX) != v {
+            viol(rep, json!({"op":"rankn","words":hilo_arr(&rev)}), json!({"value": v}), "six-card value depends on the slot order");
+        }
         v6[colex_rank(idx)].store(v, Ordering::Relaxed);
         let mut m = u16::MAX;
         let mut sub = [0usize; 5];
@@ -348,6 +368,7 @@ pub fn c09(o: &Oracle, thorough: bool, seed: u64, rep: &Report) {
     rep.distinct(n6 as u64);
     rep.space("six-card subsets with all their five-card sub-hands", true, n6 as u64);
     let hands = AtomicU64::new(0);
+    let perms7 = permutations(7);
     let stride: u64 = if thorough { 1 } else { 16 };
     par_subsets(7, |idx, ctr| {
         if stride > 1 && mix(seed ^ 9, ctr) % stride != 0 {
@@ -356,6 +377,15 @@ pub fn c09(o: &Oracle, thorough: bool, seed: u64, rep: &Report) {
         hands.fetch_add(1, Ordering::Relaxed);
         let w = o.words(idx);
         let v = guarded(|| rank_value(&Hand::from_words(&w))).unwrap_or(u16::MAX);
+        // the value may not depend on the slot order: ascending card order and a seeded order as well
+        let rev: Vec<u32> = w.iter().rev().cloned().collect();
+        let shuf: Vec<u32> = perms7[(mix(seed ^ 0x77, ctr) % 5040) as usize].iter().map(|&k| w[k]).collect();
+        for alt in [&rev, &shuf] {
+            let va = guarded(|| rank_value(&Hand::from_words(alt))).unwrap_or(u16::MAX);
+            if va != v {
+                viol(rep, json!({"op":"deal","words":hilo_arr(alt)}), json!({"v7": v}), "seven-card value depends on the slot order, so it is not the smallest of its six-card values in every order");
+            }
+        }
         let mut m = u16::MAX;
         let mut sub = [0usize; 6];
         for d in 0..7 {
@@ -373,7 +403,7 @@ pub fn c09(o: &Oracle, thorough: bool, seed: u64, rep: &Report) {
         }
     });
     let h = hands.load(Ordering::Relaxed);
-    rep.eval(h * 8);
+    rep.eval(h * 10);
     rep.distinct(h);
     rep.space("seven-card subsets with all their six-card sub-hands", h == choose(52, 7), h);
 }
@@ -392,8 +422,20 @@ pub fn c13(o: &Oracle, _thorough: bool, seed: u64, rep: &Report) {
         for &i in idx {
             e_or |= o.cards[i].rank_bit;
         }
-        for w in [canon, permuted(canon, &perms[(mix(seed, ctr) % 120) as usize])] {
+        let _ = seed;
+        for (pi, p) in perms.iter().enumerate() {
+            let w = permuted(canon, p);
             let f = Five::from(w);
+            if pi > 1 {
+                // the remaining 118 slot orders: the four predicates and the two bit observables only
+                let got = guarded(|| (f.is_flush(), f.is_straight(), f.is_straight_flush(), f.is_wheel(), f.or_rank_bits()));
+                if got != Ok((e_flush, e_straight, e_sf, e_wheel, e_or)) {
+                    viol(rep, json!({"op":"rank5","words":hilo_arr(&w)}),
+                         json!({"flush": e_flush, "straight": e_straight, "straight_flush": e_sf, "wheel": e_wheel, "or_rank_bits": e_or}),
+                         "flush / straight / straight-flush / wheel predicate disagrees with the hand's category");
+                }
+                continue;
+            }
             #[allow(deprecated)]
             let got = guarded(|| {
                 (
@@ -425,13 +467,13 @@ pub fn c13(o: &Oracle, _thorough: bool, seed: u64, rep: &Report) {
                 Err(_) => viol(rep, json!({"op":"rank5","words":hilo_arr(&w)}), json!({"flush": e_flush}), "predicate unwound"),
             }
         }
-        rep.eval(2 * 9);
+        rep.eval(2 * 9 + 118 * 5);
         if ctr & 0xFFFF_FFFF == 3 && (ctr >> 32) % 250 == 0 {
             rep.sample(json!({"words": hilo_arr(&canon), "category": cls.category, "flush": e_flush, "straight": e_straight, "wheel": e_wheel}));
         }
     });
     rep.distinct(choose(52, 5));
-    rep.space("five-card subsets of the deck, canonical and one seeded slot order", true, choose(52, 5));
+    rep.space("five-card subsets of the deck x all 120 slot orders (all observables on two orders, the four predicates and the rank bits on all)", true, choose(52, 5) * 120);
 }
 
 pub fn c08(o: &Oracle, thorough: bool, seed: u64, rep: &Report) {
@@ -483,7 +525,7 @@ pub fn c08(o: &Oracle, thorough: bool, seed: u64, rep: &Report) {
 
     // six / seven-card hands under the three non-trivial shifts, via the containers' shift_suit
     for &n in &[6usize, 7usize] {
-        let stride: u64 = if thorough { 1 } else if n == 6 { 8 } else { 64 };
+        let stride: u64 = if thorough { 1 } else if n == 6 { 4 } else { 8 };
         let hands = AtomicU64::new(0);
         par_subsets(n, |idx, ctr| {
             if stride > 1 && mix(seed ^ 8, ctr) % stride != 0 {
@@ -550,12 +592,13 @@ fn all_entries(w: &[u32]) -> Result<(u16, u16, u16, u16, u16, String, String), S
     guarded(|| {
         let h = Hand::from_words(w);
         let hr = hand_rank(&h);
+        let hv = hand_rank_validated(&h);
         let r = (
             rank_value(&h),
             hr.value,
             rank_value_and_hand(&h).value,
             rank_value_validated(&h),
-            hand_rank_validated(&h).value,
+            if hv == ckc_rs::hand_rank::HandRank::from(hv.value) { hv.value } else { u16::MAX },
             format!("{:?}", hr.name),
             format!("{:?}", hr.class),
         );
@@ -572,7 +615,7 @@ fn c05_check(o: &Oracle, rep: &Report, w: &[u32]) {
         Ok((a, b, c, d, e, name, class)) => {
             if w.len() == 5 && w.contains(&0) {
                 if a != 0 || b != 0 || c != 0 || d != 0 || e != 0 || name != "Invalid" || class != "Invalid" {
-                    viol(rep, json!({"op":"rank5","words":hilo_arr(w)}), json!({"value": 0, "v_value": 0, "v_rank": 0, "v_validated": 0, "v_rank_validated": 0, "name": "Invalid", "class": "Invalid"}),
+                    viol(rep, json!({"op":"rank5","words":hilo_arr(w)}), json!({"value": 0, "v_value": 0, "v_rank": 0, "v_validated": 0, "v_rank_validated": 0, "name": "Invalid", "class": "Invalid", "name_validated": "Invalid", "class_validated": "Invalid"}),
                          "a five-slot hand containing a blank is given a real rank");
                 }
             }
@@ -655,6 +698,39 @@ pub fn c05(o: &Oracle, thorough: bool, seed: u64, rep: &Report) {
         rep.eval(c * 5);
         rep.distinct(c);
         rep.space(&format!("{}-slot multisets over {{52 cards, blank}}", n), stride == 1, c);
+    }
+    // every placement of blanks among the slots (2^n placements) x several card fills, with and without
+    // repeated cards; and a seeded shuffle of sampled multisets (sorted presentation keeps equal symbols
+    // adjacent, which an order-sensitive slip would never see)
+    {
+        let mut rng = Rng::new(seed ^ 0xB1A);
+        let mut placed = 0u64;
+        for n in 5..=7usize {
+            for mask in 0..(1u32 << n) {
+                for fill in 0..40 {
+                    let pool = 1 + fill % 7;
+                    let cards: Vec<u32> = (0..pool).map(|_| o.cards[rng.below(52) as usize].w).collect();
+                    let w: Vec<u32> = (0..n).map(|k| if mask & (1 << k) != 0 { 0 } else { cards[rng.below(pool as u64) as usize] }).collect();
+                    c05_check(o, rep, &w);
+                    placed += 1;
+                }
+            }
+        }
+        let shuffles = if thorough { 4_000_000 } else { 400_000 };
+        for k in 0..shuffles {
+            let n = 5 + (k % 3) as usize;
+            let mut w: Vec<u32> = (0..n).map(|_| sym_word(o, rng.below(53) as usize)).collect();
+            if k % 2 == 0 {
+                let j = rng.below(n as u64) as usize;
+                w[j] = 0;
+                let i = rng.below(n as u64) as usize;
+                let c = w[rng.below(n as u64) as usize];
+                w[i] = c;
+            }
+            c05_check(o, rep, &w);
+        }
+        rep.eval((placed + shuffles) * 5);
+        rep.space("every placement of blanks among 5/6/7 slots x 40 card fills; seeded ordered arrays over {52 cards, blank}", false, placed + shuffles);
     }
     // the public product-search helper: returns normally for every key class
     let mut keys: Vec<u64> = vec![0, 1, 47, 48, 49, u64::MAX, u64::MAX - 1, (u32::MAX as u64), (u32::MAX as u64) + 1, 1 << 63];
